@@ -319,8 +319,10 @@ SAN_ENV = {
 _SAN_RE = re.compile(rb"(AddressSanitizer|runtime error:|UndefinedBehaviorSanitizer|LeakSanitizer|Assertion .* failed|terminate called)")
 
 
-def run(argv, stdin=None, cwd=None, env=None, timeout=20, as_limit=None, fsize=None, stdout=None):
-    """Run one process; classify the outcome."""
+def run(argv, stdin=None, cwd=None, env=None, timeout=20, as_limit=None, fsize=None, stdout=None, _retry=True):
+    """Run one process; classify the outcome.  A run that does not finish within `timeout` is repeated once with four times the
+    limit and that second outcome is returned: on a loaded machine (16 checks' worth of sanitizer builds) a slow run is not a hang,
+    and only a failure to terminate that repeats is reported as one."""
     e = dict(os.environ)
     e.update(SAN_ENV)
     e.pop("COLUMNS", None)
@@ -345,6 +347,8 @@ def run(argv, stdin=None, cwd=None, env=None, timeout=20, as_limit=None, fsize=N
         o.rc, o.out, o.err, o.timed_out = p.returncode, p.stdout or b"", p.stderr or b"", False
     except subprocess.TimeoutExpired as ex:
         o.rc, o.out, o.err, o.timed_out = None, ex.stdout or b"", ex.stderr or b"", True
+        if _retry and stdout is None and not hasattr(stdin, "read"):
+            return run(argv, stdin=stdin, cwd=cwd, env=env, timeout=4 * timeout, as_limit=as_limit, fsize=fsize, stdout=stdout, _retry=False)
     o.wall = time.time() - t0
     o.signal = -o.rc if (o.rc is not None and o.rc < 0) else None
     o.san = bool(_SAN_RE.search(o.err)) or o.rc in (98, 99)
